@@ -48,6 +48,8 @@ pub mod pre {
     /// http_body::SizeHint with the run-time assertions of set_lower / set_upper as preconditions.
     pub struct SizeHint { pub lower: u64, pub upper: Option<u64> }
     impl SizeHint {
+        pub fn lower(&self) -> (r: u64) ensures r == self.lower { self.lower }
+        pub fn upper(&self) -> (r: Option<u64>) ensures r == self.upper { self.upper }
         pub fn default() -> (r: SizeHint) ensures r.lower == 0, r.upper.is_none() { SizeHint { lower: 0, upper: None } }
         pub fn set_lower(&mut self, v: u64)
             requires old(self).upper matches Some(u) ==> v <= u,
